@@ -87,6 +87,25 @@ theorem C12_step_closed (m : M) (w : WF m) (op : Nat) :
   | unmod => exact ⟨nofun, nofun⟩
   | fuel => exact ⟨nofun, nofun⟩
 
+/-- the hypothesis of `C12_step_closed` is satisfiable: the initial machine of every invocation, and a machine holding the cyclic `a = [1, a]` -/
+example : WF { code := [0x51], allowEOF := true } := wf_init _ _ _
+example : WF { code := [], eval := [.ref 0], heap := [.arr [.int 1, .ref 0]] } := by
+  refine ⟨?_, ?_, ?_⟩
+  · intro v hv
+    simp only [List.mem_singleton] at hv
+    subst hv
+    exact Nat.zero_lt_one
+  · intro v hv
+    cases hv
+  · intro o ho
+    simp only [List.mem_singleton] at ho
+    subst ho
+    intro v hv
+    simp only [List.mem_cons, List.not_mem_nil, or_false] at hv
+    rcases hv with h | h <;> subst h
+    · trivial
+    · exact Nat.zero_lt_one
+
 /-- **The executor part of the property, from the initial machine**: for every byte code, both feature flags and every number of steps,
 an invocation ends in a final (closed) machine, in a VM fault, at an opcode outside the model, or at the step limit — never in a Go
 panic, an exhausted model budget or a dangling reference. -/
@@ -164,20 +183,6 @@ theorem C12_convert_terminates (h : Heap) (v : Val) : R.safe (convHex h CONV_FUE
 /-- **`BuildResultFromNeo`** (result of a NeoVM contract called from wasm): 208 nested calls are enough on every heap -/
 theorem C12_buildResult_terminates (h : Heap) (v : Val) : R.safe (buildRes h BUILD_FUEL v 0) :=
   buildRes_safe _ _ _ _ (by unfold BUILD_FUEL MAX_PARAM_LENGTH; omega) (by unfold BUILD_FUEL; omega)
-
-/-- the witness `a = [1, a]` (C14) -/
-def cyc : Heap := [.arr [.int 1, .ref 0]]
-
-theorem det_cyc (path : List Nat) : detect .asShipped Perm.id path cyc (.ref 0) = false := by
-  unfold detect; simp [detShipped, cyc, MAX_STRUCT_DEPTH]
-
-theorem det_cyc_int (path : List Nat) (z : Int) : detect .asShipped Perm.id path cyc (.int z) = false := by
-  unfold detect; simp [detShipped]
-
-theorem natv_cyc_int (f : Nat) (path : List Nat) : natv .asShipped Perm.id cyc (f+1) path (.int 1) = .ok (natLeaf (.int 1)) := by
-  unfold natv
-  rw [det_cyc_int]
-  rfl
 
 /-- **Where the code really does not return** (`fatal-stack-overflow:…BuildParamToNative…cyclic-value`, recorded under C14): on
 `a = [1, a]` the shipped detector sees nothing and `BuildParamToNative` exhausts EVERY recursion budget — no bound exists. -/
